@@ -92,6 +92,12 @@ impl<T> ResourceStorage<T> {
 	pub fn is_empty(&self) -> bool {
 		self.resources.is_empty()
 	}
+
+	/// Returns `true` if resources were added that have not been picked up yet.
+	#[must_use]
+	pub fn has_pending(&self) -> bool {
+		!self.new_resource_consumer.is_empty()
+	}
 }
 
 impl<'a, T> IntoIterator for &'a mut ResourceStorage<T> {
